@@ -215,6 +215,29 @@ fn m_one(n: &N, t: &[char], p: usize, ci: bool, cont: &mut dyn FnMut(usize) -> b
     }
 }
 
+/// leftmost match at or after char offset `from` (greedy, first alternative wins): (start, end) in chars
+pub fn find_from(pat: &str, text: &str, from: usize) -> Option<Option<(usize, usize)>> {
+    let (ci, body) = if let Some(r) = pat.strip_prefix("(?i)") { (true, r) } else { (false, pat) };
+    let chars: Vec<char> = body.chars().collect();
+    let mut p = P { s: &chars, i: 0 };
+    let alts = p.alts()?;
+    if p.i != chars.len() {
+        return None;
+    }
+    let top = N::Group(alts);
+    let t: Vec<char> = text.chars().collect();
+    for start in from..=t.len() {
+        let mut end = None;
+        if m_one(&top, &t, start, ci, &mut |e| {
+            end = Some(e);
+            true
+        }) {
+            return Some(Some((start, end.unwrap())));
+        }
+    }
+    Some(None)
+}
+
 /// unanchored search; None = pattern uses unsupported syntax
 pub fn search(pat: &str, text: &str) -> Option<bool> {
     let (ci, body) = if let Some(r) = pat.strip_prefix("(?i)") { (true, r) } else { (false, pat) };
